@@ -210,3 +210,117 @@ class RenameChromsWrapper(Contract):
             out["handle-is-writable"] = log[0][1] in ("r+", "a")
             out["the-callers-map-is-applied-to-this-file"] = isinstance(log[1][1], _Handle) and log[1][2] is rename_dict
         return out
+
+
+API_ = "cooler.api"
+
+
+class _CT:
+    """chroms(grp): the chromosome table as a frame: name column (strings), length column"""
+
+    def __init__(self, w):
+        self.w = w
+        self.cols = {"name": w["names"], "length": w["lengths"]}
+
+    def pyvc_getitem(self, I, key, node):
+        return _CTCol(self, key)
+
+    def pyvc_setitem(self, I, key, val):
+        assert key == "name" and isinstance(val, _CTCol) and val.key == "name"
+
+    def pyvc_len(self, I):
+        return self.w["names"].n
+
+    def pyvc_getattr(self, I, attr, node):
+        if attr == "set_index":
+            return LibFunc("DataFrame.set_index", lambda I, col: _Indexed(self, col))
+        raise Exception("DataFrame." + attr)
+
+
+class _CTCol:
+    def __init__(self, ct, key):
+        self.ct, self.key = ct, key
+
+    def pyvc_getattr(self, I, attr, node):
+        if attr == "astype":
+            return LibFunc("Series.astype", lambda I, t: self)
+        raise Exception("Series." + attr)
+
+    def pyvc_symiter(self, I):
+        a = self.ct.cols[self.key]
+        return a.n, a.at
+
+    def pyvc_asarray(self, I):
+        return self.ct.cols[self.key]
+
+
+class _Indexed:
+    def __init__(self, ct, by):
+        self.ct, self.by = ct, by
+
+    def pyvc_getitem(self, I, key, node):
+        return ("column", key, "indexed by", self.by)
+
+
+@contract
+class CoolerRefresh(Contract):
+    """Cooler._refresh (run by the constructor and after rename_chroms): the cached name -> id map sends the i-th stored
+    name to i, the cached lengths are the stored length column indexed by the stored names, the cached info is read from
+    the same group, symmetric-upper is the default storage mode; the file is opened through the object's own store"""
+    target = f"{API_}:Cooler._refresh"
+    props = ["C18"]
+
+    def configs(self, v):
+        def mk(mode):
+            def f(v):
+                log = []
+                n = v.Int("n_chroms")
+                names = v.path.fresh_arr("stored_names", "str", n=n)
+                lengths = v.path.fresh_arr("stored_lengths", "int", n=n)
+                w = {"log": log, "names": names, "lengths": lengths, "n": n}
+                info_d = {"nbins": v.Int("nbins")}
+                if mode is not None:
+                    info_d["storage-mode"] = mode
+                grp = Opaque("group")
+
+                class _CM:
+                    def pyvc_enter(self, I):
+                        return {"/root": grp}
+
+                    def pyvc_exit(self, I, exc):
+                        return None
+
+                def open_hdf5(I, store, **kw):
+                    log.append(("open", store, kw))
+                    return _CM()
+                store = Opaque("store")
+                slf = v.Obj("Cooler", API_, store=store, open_kws={}, root="/root")
+                w.update(info=info_d, grp=grp, store=store, mode=mode)
+                return dict(self=slf, __free__={"open_hdf5": LibFunc("open_hdf5", open_hdf5),
+                                                "chroms": LibFunc("chroms", lambda I, g: (log.append(("chroms", g)), _CT(w))[1]),
+                                                "info": LibFunc("info", lambda I, g: (log.append(("info", g)), info_d)[1])},
+                            __ghost__=w)
+            return f
+        yield "symmetric-upper", mk("symmetric-upper")
+        yield "square", mk("square")
+        yield "no-storage-mode-attribute", mk(None)
+
+    def requires(self, **a):
+        return [self._v.path.ghost["n"] >= 0]
+
+    def ensures(self, result, self_):
+        from pyvc.lib_builtin import ZipMapV
+        w = self._v.path.ghost
+        at = self_.attrs
+        out = {"reads-its-own-store-and-group": [op[0] for op in w["log"]] == ["open", "chroms", "info"] and w["log"][0][1] is w["store"]
+               and w["log"][1][1] is w["grp"] and w["log"][2][1] is w["grp"]}
+        ids = at.get("_chromids")
+        ok = isinstance(ids, ZipMapV)
+        out["name-to-id-map-built"] = ok
+        if ok:
+            n = w["n"]
+            out["ith-stored-name-maps-to-i"] = And(ids.keys.n == n, forall(0, n, lambda k: And(ids.keys.at(k) == w["names"].at(k), ids.val_at(k) == k)))
+        out["lengths-are-the-stored-column-indexed-by-name"] = at.get("_chromsizes") == ("column", "length", "indexed by", "name")
+        out["info-is-the-groups"] = at.get("_info") is w["info"]
+        out["symmetric-upper-unless-stored-otherwise"] = at.get("_is_symm_upper") is (w["mode"] in (None, "symmetric-upper"))
+        return out
